@@ -133,14 +133,14 @@ Proof. intros Hin Ht. apply sanct_full_b. exists t. auto. Qed.
 (* ---------- one level, given the induction hypothesis ---------- *)
 Section Step.
 Variable n : nat.
-Hypothesis IH : forall t t' m, size t < n -> applicable m t -> mode_rfn m = false -> mode_ok tb m -> guard tb m -> csim t t' -> W m t = W m t'.
+Hypothesis IH : forall t t' m, size t < n -> applicable m t -> mode_ok tb m -> guard tb m -> csim t t' -> W m t = W m t'.
 
 Lemma applicable_csim m t t' : csim t t' -> applicable m t -> applicable m t'.
 Proof. intros H. pose proof (csim_kind _ _ H). destruct t, t'; try contradiction; auto. Qed.
 
-Lemma arr_item_ni pk search sel kp x x' :
+Lemma arr_item_ni pk rfn search sel kp x x' :
   size x < n -> exempt_key tb [] pk search = false -> csim x x' ->
-  arr_item tb cs c is_email A W pk false search sel kp x = arr_item tb cs c is_email A W pk false search sel kp x'.
+  arr_item tb cs c is_email A W pk rfn search sel kp x = arr_item tb cs c is_email A W pk rfn search sel kp x'.
 Proof.
   intros Hs Hex H. inversion H as [t | v v' Hl | l l' Hf | l l' Hf]; subst; [reflexivity | | |].
   - destruct x as [| b | num | s | l | l], x' as [| b' | num' | s' | l' | l']; simpl in Hl; try contradiction; unfold arr_item.
@@ -151,26 +151,26 @@ Proof.
   - unfold arr_item. apply IH; simpl; auto.
 Qed.
 
-Lemma arr_ni pk search sel kp l l' :
+Lemma arr_ni pk rfn search sel kp l l' :
   (forall x, In x l -> size x < n) -> exempt_key tb [] pk search = false -> Forall2 csim l l' ->
-  map (arr_item tb cs c is_email A W pk false search sel kp) l = map (arr_item tb cs c is_email A W pk false search sel kp) l'.
+  map (arr_item tb cs c is_email A W pk rfn search sel kp) l = map (arr_item tb cs c is_email A W pk rfn search sel kp) l'.
 Proof.
   intros Hs Hex Hf. apply (map_Forall2 _ _ csim); [exact Hf|]. intros x y Hx Hy Hxy. apply arr_item_ni; auto.
 Qed.
 
 Lemma stages_ni (f : json -> mode) l l' :
   (forall x, In x l -> size x < n) -> Forall2 csim l l' ->
-  (forall x y, csim x y -> f x = f y) -> (forall x, mode_rfn (f x) = false /\ mode_ok tb (f x) /\ guard tb (f x) /\ applicable (f x) x) ->
+  (forall x y, csim x y -> f x = f y) -> (forall x, mode_ok tb (f x) /\ guard tb (f x) /\ applicable (f x) x) ->
   map (fun st => W (f st) st) l = map (fun st => W (f st) st) l'.
 Proof.
   intros Hs Hf Hfe Hm. apply (map_Forall2 _ _ csim); [exact Hf|]. intros x y Hx Hy Hxy.
-  rewrite <- (Hfe x y Hxy). destruct (Hm x) as (H1 & H2 & H3 & H4). apply IH; auto.
+  rewrite <- (Hfe x y Hxy). destruct (Hm x) as (H2 & H3 & H4). apply IH; auto.
 Qed.
 
-Lemma walk_value_ni search kp sinit slast v v' :
+Lemma walk_value_ni rfn search kp sinit slast v v' :
   size v < n -> csim v v' -> exempt_key tb sinit slast search = false ->
   (String.eqb slast "subType" && String.eqb (last_or_empty sinit) "$binary")%bool = false ->
-  walk_value tb cs c is_email A W false search kp sinit slast v = walk_value tb cs c is_email A W false search kp sinit slast v'.
+  walk_value tb cs c is_email A W rfn search kp sinit slast v = walk_value tb cs c is_email A W rfn search kp sinit slast v'.
 Proof.
   intros Hs H Hex Est. inversion H as [t | x x' Hl | l l' Hf | l l' Hf]; subst; [reflexivity | | |].
   - destruct v, v'; simpl in Hl; try contradiction; unfold walk_value; now apply scalar_ni.
@@ -182,30 +182,30 @@ Qed.
 Definition msim (k : string) (v v' : json) : Prop :=
   v = v' \/ (clear_key k v = true /\ clear_key k v' = true /\ csim v v').
 
-Lemma pipeline_map_member_ni subk subv subv' :
+Lemma pipeline_map_member_ni rfn subk subv subv' :
   size subv < n -> msim subk subv subv' ->
-  pipeline_map_member tb cs c is_email A W false subk subv = pipeline_map_member tb cs c is_email A W false subk subv'.
+  pipeline_map_member tb cs c is_email A W rfn subk subv = pipeline_map_member tb cs c is_email A W rfn subk subv'.
 Proof.
   intros Hs [-> | (Hc & Hc' & H)]; [reflexivity|].
   apply clear_not_full in Hc. destruct Hc as (Hf & Hst & _).
   inversion H as [t | x x' Hl | l l' Hfa | l l' Hfa]; subst; [reflexivity | | |].
   - destruct subv, subv'; simpl in Hl; try contradiction; unfold pipeline_map_member; apply scalar_ni; simpl; auto using full_exempt; now rewrite Bool.andb_false_r.
   - unfold pipeline_map_member. f_equal.
-    apply (stages_ni (fun st => MP false [] (is_in_search_stage tb st))); auto.
+    apply (stages_ni (fun st => MP rfn [] (is_in_search_stage tb st))); auto.
     + intros x Hx. pose proof (size_in_arr x l Hx). lia.
     + intros x y Hxy. now rewrite (search_stage_ni x y Hxy).
     + intros x. simpl. auto using applicable_MP.
   - unfold pipeline_map_member. apply IH; simpl; auto.
 Qed.
 
-Lemma sub_member_ni search nkp k m subk subv subv' :
+Lemma sub_member_ni rfn search nkp k m subk subv subv' :
   within2 tb m -> size subv < n -> msim subk subv subv' ->
-  sub_member tb cs c is_email A W false search nkp k m subk subv = sub_member tb cs c is_email A W false search nkp k m subk subv'.
+  sub_member tb cs c is_email A W rfn search nkp k m subk subv = sub_member tb cs c is_email A W rfn search nkp k m subk subv'.
 Proof.
   intros Hw Hs [-> | (Hc & Hc' & H)]; [reflexivity|].
   apply clear_not_full in Hc. destruct Hc as (Hf & Hst & Hna).
   apply clear_not_full in Hc'. destruct Hc' as (_ & _ & Hna').
-  assert (Hwv : walk_value tb cs c is_email A W false search (nkp ++ [subk]) nkp subk subv = walk_value tb cs c is_email A W false search (nkp ++ [subk]) nkp subk subv').
+  assert (Hwv : walk_value tb cs c is_email A W rfn search (nkp ++ [subk]) nkp subk subv = walk_value tb cs c is_email A W rfn search (nkp ++ [subk]) nkp subk subv').
   { apply walk_value_ni; auto using full_exempt.
     destruct (String.eqb subk "subType") eqn:E; [apply String.eqb_eq in E; contradiction | reflexivity]. }
   unfold sub_member.
@@ -225,15 +225,15 @@ Proof.
     destruct subv as [| | | | l |], subv' as [| | | | l' |]; try contradiction;
       try (exfalso; unfold SurvivorsLine.key_nonarr in Hna; rewrite (has_entry_in _ _ _ Hsub) in Hna; simpl in Hna; rewrite ?Bool.orb_true_r in Hna; discriminate).
     f_equal. f_equal. inversion H as [t | x x' Hl | l0 l0' Hfa | l0 l0' Hfa]; subst; [reflexivity | simpl in Hl; contradiction |].
-    apply (stages_ni (fun _ => MP false nkp search)); auto.
+    apply (stages_ni (fun _ => MP rfn nkp search)); auto.
     + intros x Hx. pose proof (size_in_arr x l Hx). simpl in *. lia.
     + intros x. simpl. auto using applicable_MP.
   - (* Namespace *) exfalso. rewrite (full_in subk Namespace Hin) in Hf; [discriminate | right; right; reflexivity].
 Qed.
 
-Lemma p_generic_ni kp search k v v' :
+Lemma p_generic_ni rfn kp search k v v' :
   size v < n -> clear_key k v = true -> csim v v' ->
-  p_generic tb cs c is_email A W false kp search k v = p_generic tb cs c is_email A W false kp search k v'.
+  p_generic tb cs c is_email A W rfn kp search k v = p_generic tb cs c is_email A W rfn kp search k v'.
 Proof.
   intros Hs Hc H. apply clear_not_full in Hc. destruct Hc as (Hf & Hst & _).
   assert (Est : (String.eqb k "subType" && String.eqb (last_or_empty kp) "$binary")%bool = false)
@@ -245,9 +245,9 @@ Proof.
   rewrite D1, D2. cbn [andb]. apply scalar_ni; simpl; auto using full_exempt.
 Qed.
 
-Lemma p_member_ni kp search k v v' :
+Lemma p_member_ni rfn kp search k v v' :
   size v < n -> msim k v v' ->
-  p_member tb cs c is_email A W false kp search k v = p_member tb cs c is_email A W false kp search k v'.
+  p_member tb cs c is_email A W rfn kp search k v = p_member tb cs c is_email A W rfn kp search k v'.
 Proof.
   intros Hs [-> | (Hc & Hc' & H)]; [reflexivity|].
   pose proof (clear_not_full _ _ Hc) as (Hf & Hst & Hna). pose proof (clear_not_full _ _ Hc') as (_ & _ & Hna').
@@ -271,7 +271,7 @@ Proof.
       destruct v as [| b | num | s | l | l], v' as [| b' | num' | s' | l' | l']; try contradiction;
         try (exfalso; unfold SurvivorsLine.key_nonarr in Hna; rewrite (has_entry_in _ _ _ Hin) in Hna; simpl in Hna; rewrite ?Bool.orb_true_r in Hna; discriminate).
       f_equal. f_equal. inversion H as [t | x x' Hl | l0 l0' Hfa |]; subst; [reflexivity | simpl in Hl; contradiction |].
-      apply (stages_ni (fun _ => MP false (kp ++ [k]) search)); auto.
+      apply (stages_ni (fun _ => MP rfn (kp ++ [k]) search)); auto.
       * intros x Hx. pose proof (size_in_arr x l Hx). simpl in *. lia.
       * intros x. simpl. auto using applicable_MP.
     + exfalso. rewrite (full_in k Namespace Hin) in Hf; [discriminate | right; right; reflexivity].
@@ -284,9 +284,9 @@ Proof.
     + intros a b Ha Hb [E M]. rewrite <- E. apply sub_member_ni; auto. pose proof (size_in_obj a l Ha). lia.
 Qed.
 
-Lemma q_member_ni search parent kp k v v' :
+Lemma q_member_ni rfn search parent kp k v v' :
   meta_rootish tb parent -> size v < n -> msim k v v' ->
-  q_member tb cs c is_email A W false search parent kp k v = q_member tb cs c is_email A W false search parent kp k v'.
+  q_member tb cs c is_email A W rfn search parent kp k v = q_member tb cs c is_email A W rfn search parent kp k v'.
 Proof.
   intros Hpw Hs [-> | (Hc & Hc' & H)]; [reflexivity|].
   pose proof (clear_not_full _ _ Hc) as (Hf & Hst & _).
@@ -316,26 +316,26 @@ Qed.
 
 End Step.
 
-Theorem walk_ni : forall t t' m, applicable m t -> mode_rfn m = false -> mode_ok tb m -> guard tb m -> csim t t' -> W m t = W m t'.
+Theorem walk_ni : forall t t' m, applicable m t -> mode_ok tb m -> guard tb m -> csim t t' -> W m t = W m t'.
 Proof.
-  intros t. induction t as [t IHt] using json_size_ind. intros t' m Happ Hm Hok Hg H.
-  assert (IH : forall x x' m', size x < size t -> applicable m' x -> mode_rfn m' = false -> mode_ok tb m' -> guard tb m' -> csim x x' -> W m' x = W m' x').
+  intros t. induction t as [t IHt] using json_size_ind. intros t' m Happ Hok Hg H.
+  assert (IH : forall x x' m', size x < size t -> applicable m' x -> mode_ok tb m' -> guard tb m' -> csim x x' -> W m' x = W m' x').
   { intros; apply IHt; auto. }
   inversion H as [x | v v' Hl | l l' Hf | l l' Hf]; subst; [reflexivity | | |].
   - (* differing leaves: only the pipeline walker meets bare leaves *)
-    destruct m as [rfn kp search | rfn search parent kp | pk rfn search sel kp]; simpl in Hm; subst.
+    destruct m as [rfn kp search | rfn search parent kp | pk rfn search sel kp].
     + destruct t as [| b | num | s | l | l], t' as [| b' | num' | s' | l' | l']; simpl in Hl; try contradiction; cbn [walk p_leaf].
       * apply scalar_ni; [exact Hl | apply exempt_empty; auto | reflexivity].
       * apply scalar_ni; [exact Hl | apply exempt_empty; auto | reflexivity].
       * destruct Hl as (D1 & D2 & He). rewrite D1, D2. apply scalar_ni; [simpl; auto | apply exempt_empty; auto | reflexivity].
     + destruct t; simpl in Happ, Hl; try contradiction; destruct t'; contradiction.
     + destruct t; simpl in Happ, Hl; try contradiction; destruct t'; contradiction.
-  - destruct m as [rfn kp search | rfn search parent kp | pk rfn search sel kp]; simpl in Hm, Happ; subst; try contradiction; cbn [walk].
+  - destruct m as [rfn kp search | rfn search parent kp | pk rfn search sel kp]; simpl in Happ; try contradiction; cbn [walk].
     + f_equal. rewrite !sel_of_none. apply (arr_ni (size (JArr l)) IH); auto.
       * intros x Hx. now apply size_in_arr.
       * apply exempt_empty; auto.
     + f_equal. apply (arr_ni (size (JArr l)) IH); auto. intros x Hx. now apply size_in_arr.
-  - destruct m as [rfn kp search | rfn search parent kp | pk rfn search sel kp]; simpl in Hm, Happ; subst; try contradiction; cbn [walk].
+  - destruct m as [rfn kp search | rfn search parent kp | pk rfn search sel kp]; simpl in Happ; try contradiction; cbn [walk].
     + f_equal. f_equal.
       apply (map_Forall2 _ _ (fun kv kv' : string * json => fst kv = fst kv' /\ msim (fst kv) (snd kv) (snd kv'))).
       * eapply F2_impl; [|exact Hf]. intros a b [E M]. split; [exact E | exact M].
